@@ -19,6 +19,7 @@ CONVERTER = "RevolveCheckpointSchedule"
 def run(chk, ctx):
     _identity(chk, ctx)
     _run(chk, ctx)
+    _idxguard(chk, ctx)
 
 
 def _identity(chk, ctx):
@@ -112,3 +113,132 @@ def _run(chk, ctx):
         ok = True if d == 1 else (False if d is not None else None)
         chk.decide("C02.UNIT", op.construct, ok, f"Backward {ast.unparse(op.idx)}: from - to = {d}",
                    rel=op.rel, node=op.node)
+
+
+# ---------------------------------------------------------------------------
+# C02.IDXGUARD: the converter rejects an operation by its position in the sequence (`if i < K: raise`).
+# Such a guard ends the stream with an exception instead of the closing EndReverse whenever an operation
+# of the guarded kinds can sit before position K.  The position of the first such operation is bounded from
+# below on the grammar of the sequence builders.
+
+def _idx_guards(fn):
+    """-> index variable, [(If node, K, operation types of the enclosing branch)] of the converter generator"""
+    idx = act = None
+    for n in ast.walk(fn):
+        if isinstance(n, ast.Assign) and isinstance(n.value, ast.Call) and isinstance(n.value.func, ast.Name) \
+                and n.value.func.id == "_convert_action" and n.value.args \
+                and isinstance(n.value.args[0], ast.Subscript) and isinstance(n.value.args[0].slice, ast.Name) \
+                and isinstance(n.targets[0], ast.Tuple) and isinstance(n.targets[0].elts[0], ast.Name):
+            idx, act = n.value.args[0].slice.id, n.targets[0].elts[0].id
+            break
+    if idx is None:
+        return None, []
+    out = []
+
+    def types_of(test):
+        """string constants the action name is compared with for equality in a (disjunctive) test"""
+        ts = set()
+        parts = test.values if isinstance(test, ast.BoolOp) and isinstance(test.op, ast.Or) else [test]
+        for p in parts:
+            if isinstance(p, ast.Compare) and len(p.ops) == 1 and isinstance(p.ops[0], ast.Eq) \
+                    and isinstance(p.left, ast.Name) and p.left.id == act \
+                    and isinstance(p.comparators[0], ast.Constant) and isinstance(p.comparators[0].value, str):
+                ts.add(p.comparators[0].value)
+            elif isinstance(p, ast.Compare) and len(p.ops) == 1 and isinstance(p.ops[0], ast.In) \
+                    and isinstance(p.left, ast.Name) and p.left.id == act \
+                    and isinstance(p.comparators[0], (ast.Tuple, ast.List, ast.Set)) \
+                    and all(isinstance(e, ast.Constant) and isinstance(e.value, str) for e in p.comparators[0].elts):
+                ts |= {e.value for e in p.comparators[0].elts}
+            else:
+                return None
+        return ts
+
+    def walk(stmts, types):
+        for s in stmts:
+            if isinstance(s, ast.If):
+                t = s.test
+                if isinstance(t, ast.Compare) and len(t.ops) == 1 and isinstance(t.left, ast.Name) and t.left.id == idx \
+                        and isinstance(t.ops[0], (ast.Lt, ast.LtE)) and isinstance(t.comparators[0], ast.Constant) \
+                        and isinstance(t.comparators[0].value, int) and s.body and isinstance(s.body[0], ast.Raise):
+                    out.append((s, t.comparators[0].value + (1 if isinstance(t.ops[0], ast.LtE) else 0), types))
+                    walk(s.orelse, types)
+                    continue
+                ts = types_of(t)
+                walk(s.body, ts if ts is not None else types)
+                walk(s.orelse, types)
+            elif isinstance(s, (ast.For, ast.While, ast.With, ast.Try)):
+                for fld in ("body", "orelse", "finalbody"):
+                    walk(getattr(s, fld, []) or [], types)
+                for h in getattr(s, "handlers", []) or []:
+                    walk(h.body, types)
+    walk(fn.body, None)
+    return idx, out
+
+
+def _witness_feasible(b, conds):
+    """a call-free, loop-free production is taken for some valid argument when its conditions are bookkeeping tests
+    (`x is None`) or comparisons of one parameter with integer constants that a small non-negative value satisfies"""
+    params = {a.arg for a in b.fn.args.args}
+    cmp_ = {ast.Eq: lambda a, c: a == c, ast.NotEq: lambda a, c: a != c, ast.Lt: lambda a, c: a < c,
+            ast.LtE: lambda a, c: a <= c, ast.Gt: lambda a, c: a > c, ast.GtE: lambda a, c: a >= c}
+    per = {}
+    for node, tag in conds:
+        t = node.test
+        if isinstance(t, ast.Compare) and len(t.ops) == 1 and isinstance(t.ops[0], (ast.Is, ast.IsNot)):
+            continue
+        if isinstance(t, ast.Compare) and len(t.ops) == 1 and type(t.ops[0]) in cmp_ and isinstance(t.left, ast.Name) \
+                and t.left.id in params and isinstance(t.comparators[0], ast.Constant) \
+                and isinstance(t.comparators[0].value, int) and not isinstance(t.comparators[0].value, bool):
+            per.setdefault(t.left.id, []).append((cmp_[type(t.ops[0])], t.comparators[0].value, tag))
+            continue
+        return False
+    return all(any(all(f(v, c) == tag for f, c, tag in tests) for v in range(0, 16)) for tests in per.values())
+
+
+def _idxguard(chk, ctx):
+    from ..gram import min_first_index, INF
+    chk.describe("C02.IDXGUARD", "a position guard of the converter (`if i < K: raise`) cannot fire: the first operation of the "
+                 "guarded kinds sits at index >= K in every sequence the builders produce")
+    g = Grammar(ctx.repo)
+    conv = [(r_, q_, f_) for r_, q_, f_ in ctx.repo.all_functions() if q_.endswith(CONVERTER + "._iterator")]
+    if not conv:
+        chk.error("C02.IDXGUARD: converter generator not found")
+        return
+    rel, q, fn = conv[0]
+    idx, guards = _idx_guards(fn)
+    # builders the schedule classes of the converter module call by name
+    entry = set()
+    for r_, q_, f_ in ctx.repo.all_functions():
+        if r_ == rel:
+            entry |= {n.id for n in ast.walk(f_) if isinstance(n, ast.Name) and n.id in g.builders}
+    chk.files.add(rel)
+    chk.functions.add(q)
+    for node, k, types in guards:
+        cons = f"{q}#index-guard[{'|'.join(sorted(types)) if types else '?'}]"
+        if not types:
+            chk.decide("C02.IDXGUARD", cons, None, "operation kinds of the guarded branch not recognised", rel=rel, node=node)
+            continue
+        first = min_first_index(g, types)
+        worst = min(first.items(), key=lambda kv: kv[1][0]) if first else (None, (INF, None))
+        lo = worst[1][0]
+        if lo >= k:
+            chk.decide("C02.IDXGUARD", cons, True, f"`{ast.unparse(node.test)}` raises; first {sorted(types)} operation of any "
+                       f"live builder's sequence is at index >= {lo}", rel=rel, node=node)
+            continue
+        definite = None
+        for f, (v, w) in sorted(first.items()):
+            b = g.builders[f]
+            if v < k and w and w[2] and f in entry and not getattr(b, "opaque", None) \
+                    and not any(id(c.test) in g.liveness.maybe_nodes or id(c) in g.liveness.maybe_nodes for c, _ in w[0]) \
+                    and _witness_feasible(b, w[0]):
+                definite = (f, v, w)
+                break
+        if definite:
+            f, v, w = definite
+            cs = " and ".join(("" if tag else "not ") + f"({ast.unparse(c.test)})" for c, tag in w[0]) or "always"
+            chk.decide("C02.IDXGUARD", cons, False, f"`{ast.unparse(node.test)}` raises, but {f}() returns, when {cs}, the sequence "
+                       f"{[repr(x) for x in w[1]]} with a guarded operation at index {v}: the stream ends with an exception "
+                       "instead of EndReverse", rel=rel, node=node)
+        else:
+            chk.decide("C02.IDXGUARD", cons, None, f"`{ast.unparse(node.test)}`: the lower bound of the first guarded operation "
+                       f"is {lo} ({worst[0]}), below the guard; no production attaining it is followed exactly", rel=rel, node=node)
